@@ -100,7 +100,8 @@ def gen_job(verif_seed, tier, index):
         pre.append(["res/run1.dat", f"previous content {g.getrandbits(40)}\n"])
         links.append([op["out"], "run1.dat"])
     elif state != "absent":
-        pre.append([op["out"], f"previous content {g.getrandbits(40)}\n"])
+        # a quarter of the existing files are empty (0 bytes) - they are files all the same
+        pre.append([op["out"], f"previous content {g.getrandbits(40)}\n" if g.random() < 0.75 else ""])
     if state == "file+backups":
         for k in range(1, g.randint(2, 3)):
             pre.append([f"res/#{base}.{k}#", f"backup {k} {g.getrandbits(40)}\n"])
